@@ -6,12 +6,12 @@ SPEC = {
         # Syscall-level observer: the sweep again in a child under strace.
         {"name": "opens", "pkg": "./internal/filtering/", "run": "^TestVerifC17Opens$",
          "harness": ["filtering/c17_*.go"], "timeout_quick": 900, "timeout_thorough": 3000,
-         "thorough_only": False},
+         "thorough_only": True},
     ],
 }
 
 CLAIM = {
-    "text": "TODO",
-    "note": "TODO",
-    "technique": "runtime monitor: independent path-matching oracle over seeded locations, content canaries (HTTP/exported API)",
+    "text": "Seeded sweep of (safe_fs_patterns list, location string, entry point). Pattern lists: none, exact paths, *, ?, [..] classes, directory globs of several depths, relative patterns, escaped meta characters, malformed patterns. Locations: every file of a 26-file tree plainly, plus spellings with dot-dot through existing and missing directories, '.', doubled and trailing separators, relative forms (the process cwd lies inside the tree), file:/ftp:/other schemes, mixed-case schemes, NUL/newline/space bytes, percent-encoding, backslashes, changed case, system files, spellings constructed to match a pattern only before cleaning, and http lists of a local server as positive controls. Entry points: POST add_url, POST set_url (directly and via a disabled list that is then enabled), and two refreshes of lists written straight into Config.Filters/WhitelistFilters of a fresh DNSFilter. Every tree file holds a unique rule; its content may become observable (stored data/filters file, response body, rules_count, CheckHost) only if the file's cleaned absolute path matches a pattern by an independent filepath.Match oracle; a location none of whose readings matches must be refused with 4xx at add/set and count no rules; plain paths that match and the http controls must be taken. Thorough tier repeats a sweep in a child under strace -f -y and asserts that no open/openat returns a tree file outside the patterns in force. Exploration: held on the cases observed, which the evidence counts.",
+    "note": "No symbolic links are created (the statement's 'cleaned absolute path' is then the file). Unspecified and only counted: whether a decorated spelling that cleans to an allowed path (or a relative/file:// string that names one) is accepted; behaviour (including handler panics) under a malformed pattern that filtering.New let through - only soundness is asserted there. CheckHost is read after a synchronous engine rebuild; completeness expectations re-probe while an asynchronous rebuild of an earlier request is in flight (can only delay, never cause, a finding).",
+    "technique": "runtime monitor: independent path-matching oracle over seeded locations with content canaries (captured HTTP handlers, exported CheckHost); strace open log as second observer (thorough)",
 }
